@@ -174,7 +174,7 @@ PROPS = {
                         
                         "a residue key that comes back later in the chain always carries the same residue name: a residue holding conformers of several names together with blank alternate locations is not generated (which blank conformer is shared out is not fixed by the property; the specification shares out a single one)",
                         "a truncated atom line keeps at least 7 characters (a bare 'ATOM  ' is not a record for the reader and is skipped without a diagnostic)",
-                        "the whole-file refinement theorem read_pdb (render recs) = denote recs is not proved (proved: field and line read-back, the grouping and the simulation of the specification walk on runs of coordinate and TER records; not proved: MODEL boundaries, metadata records, the passes after the loop); the two are compared on every generated text"],
+                        "the whole-file refinement theorem read_pdb (render recs) = denote recs is not proved (proved: field and line read-back, the grouping and the simulation of the specification walk on runs of coordinate and TER records; proved since: MODEL / ENDMDL boundaries and the MODRES pass; not proved: metadata records, the other passes after the loop, the lexing of whole lines of every record type); the two are compared on every generated text"],
     },
     "C02": {
         "translators": ["t2a", "t2b", "t2c"],
